@@ -19,7 +19,11 @@ def run(c):
         "the 5 s deadline is the code's own and is waited for in real time, a handful of scenarios per run in parallel with the session runs",
         "targets, checks and modifiers are the scripted ones of harness/internal/verifshim/vc03 (results are a function of the MAIL/RCPT addresses and the X-Vc03 header field); "
         "a target operation either returns nil or an error, it does not panic or block",
-        "one global check, one global modifier, per-domain destination blocks with 0-3 targets; no source blocks, no per-destination checks/modifiers, no nested pipelines, no recipient rewriting",
+        "one global check, one global modifier, per-domain destination blocks with 0-3 targets; no source blocks, no per-destination checks/modifiers, no nested pipelines",
+        "recipient rewriting: the scripted modifier rewrites alias forms of a recipient family (alias of an alias -> alias -> mailbox, a second alias -> mailbox, every step into the next routed domain; "
+        "the fault fields are kept); the model runs on the RCPT TO argument (key of every status) and the domain of the EFFECTIVE address (rewriteRcpt: any table). Two DIFFERENT RCPT TO arguments "
+        "delivered under ONE effective address to a target that reports per recipient (LMTP) are not generated: the pipeline's reverse translation is a map keyed by the effective address "
+        "(known finding KF-C09-1, judged by the C09 check); such recipient lists are generated with targets that do not report per recipient, chains without a shared effective address keep the reporting targets",
         "go-smtp's parser and the TCP layer are outside the model: the model starts from the parsed command (token) and its well-formedness class; "
         "BDAT is only sent while the server holds an accepted recipient (a BDAT refused with 502 leaves its chunk on the wire to be parsed as commands)",
         "LMTP success theorem: proved for recipients whose address was accepted once in the transaction (C03_lmtp_success_stmt is the unrestricted statement; duplicates are covered by the differential runs only)",
@@ -41,7 +45,8 @@ def run(c):
     return c.finish(
         rule="random SMTP and LMTP sessions against a REAL endpoint over loopback TCP (go-smtp server + maddy Session + msgpipeline built from configuration text): "
         "command scripts over {EHLO/LHLO/HELO (valid, wrong protocol, no argument, repeated mid-transaction), AUTH (good, bad), MAIL (ASCII, upper-case domain, null, non-ASCII with and without SMTPUTF8, "
-        "syntax error, unknown parameter, oversize SIZE, nested), RCPT (6 ids x 3 routed domains, upper-case domain, non-ASCII, syntax error, duplicate), DATA (plain, too many Received, oversize header, "
+        "syntax error, unknown parameter, oversize SIZE, nested), RCPT (6 ids x 3 routed domains, upper-case domain, non-ASCII, syntax error, duplicate; alias families rewritten by the modifier: a -> b with b supplied too, chains down to the mailbox, "
+        "two aliases of one mailbox, an alias with its own rewriting result, in either order, members routed by different destination blocks, crossed with Body failures of atomic targets and body check / modifier failures), DATA (plain, too many Received, oversize header, "
         "argument, cut in the middle + disconnect), BDAT (single LAST chunk, first chunk, more chunks, LAST chunk, no argument), RSET, NOOP, VRFY, unknown command (incl. too many errors), QUIT, abrupt disconnect}, "
         "with and without pipelining, deferred-reject and immediate-reject modes, 1-3 scripted targets (atomic or partial) behind generated routes (1-3 targets or a reject per domain), "
         "failures (temporary/permanent, density 0-70%) injected into check (connection, sender, recipient, body), modifier (init, sender, recipient, body) and every target operation "
